@@ -427,3 +427,114 @@ func ruleERR4(c *Ctx) {
 		}
 	}
 }
+
+func init() {
+	register("ERR-3", "errors raised by RuleEntry.Evaluate name the rule", 3, ruleERR3)
+	register("LDR-10", "rule header: name and salience reach the rule entry as declared", 3, ruleLDR10)
+}
+
+// ERR-3: every fresh error returned by RuleEntry.Evaluate (and the recover handlers of Evaluate/Execute) is built with
+// the rule's name among its operands; Execute's pass-through of the action error is named by the engine's wrap (ENG-12).
+func ruleERR3(c *Ctx) {
+	p := c.P
+	a := c.eng()
+	fn := a.reEval
+	if fn == nil {
+		c.AnchorLost("RuleEntry.Evaluate")
+		return
+	}
+	mentionsName := func(v ssa.Value) bool {
+		return errorfMentions(v, func(y ssa.Value) bool {
+			f, _ := fieldLoad(y)
+			return f != nil && f.Name() == "RuleName"
+		})
+	}
+	n := 0
+	for _, ret := range returnsOf(fn) {
+		if ret.Block().Comment == "recover" {
+			continue
+		}
+		_, errv := returnOperandsThroughAllocs(ret)
+		if errv == nil || isNilConst(errv) {
+			continue
+		}
+		n++
+		c.Check(mentionsName(errv), "RuleEntry.Evaluate / error at "+shortRetLabel(p, ret)+" names the rule", p.InstrPos(ret), "fmt.Errorf(... RuleName ...)", "an evaluation error is returned without the rule's name: with ReturnErrOnFailedRuleEvaluation set, Execute's error does not say which rule failed")
+	}
+	if n == 0 {
+		c.Fail("RuleEntry.Evaluate / error returns", p.Pos(fn.Pos()), "no error return found (anchor lost)")
+	}
+}
+
+// LDR-10: the declared name and salience are what ends up in the rule entry.
+func ruleLDR10(c *Ctx) {
+	p := c.P
+	fn := p.Method("antlr", "GruleV3ParserListener", "ExitRuleEntry")
+	if fn == nil {
+		c.AnchorLost("ExitRuleEntry")
+		return
+	}
+	ok := false
+	for _, b := range fn.Blocks {
+		for _, in := range b.Instrs {
+			f, _, val := fieldStore(in)
+			if f == nil || f.Name() != "RuleName" {
+				continue
+			}
+			// ctx.RuleName().GetText()
+			if call, isCall := val.(*ssa.Call); isCall && calleeNameIs(call, "GetText") {
+				if inner, isCall2 := call.Call.Value.(*ssa.Call); isCall2 && calleeNameIs(inner, "RuleName") {
+					ok = true
+				}
+			}
+		}
+	}
+	c.Check(ok, "ExitRuleEntry / RuleName is the text of the ruleName token", p.Pos(fn.Pos()), "entry.RuleName = ctx.RuleName().GetText()", "the rule's name is not taken from its ruleName token")
+	acc := p.Method("ast", "RuleEntry", "AcceptSalience")
+	okS := false
+	if acc != nil {
+		for _, b := range acc.Blocks {
+			for _, in := range b.Instrs {
+				f, base, val := fieldStore(in)
+				if f == nil || f.Name() != "Salience" || base != ssa.Value(receiver(acc)) {
+					continue
+				}
+				sf, sb := fieldLoad(val)
+				okS = sf != nil && sf.Name() == "SalienceValue" && len(acc.Params) > 1 && sb == ssa.Value(acc.Params[1])
+			}
+		}
+	}
+	c.Check(okS, "RuleEntry.AcceptSalience / Salience is the accepted node's value", "-", "e.Salience = salience.SalienceValue", "the rule's salience is not the declared value")
+	ex := p.Method("antlr", "GruleV3ParserListener", "ExitSalience")
+	okE := false
+	if ex != nil {
+		for _, ci := range callsIn(ex) {
+			if calleeNameIs(ci, "AcceptSalience") {
+				args := ci.Common().Args
+				arg := args[len(args)-1]
+				// the popped *ast.Salience
+				okE = derivesFrom(arg, func(v ssa.Value) bool {
+					call, isCall := v.(*ssa.Call)
+					return isCall && calleeNameIs(call, "Pop")
+				})
+			}
+		}
+	}
+	c.Check(okE, "ExitSalience / hands the parsed salience node to the rule entry", "-", "AcceptSalience(popped node)", "the salience node built from the literal is not the one accepted by the rule entry")
+	// the literal lands in the node: Salience.AcceptIntegerLiteral stores int(lit.Integer)
+	sal := p.Method("ast", "Salience", "AcceptIntegerLiteral")
+	okL := false
+	if sal != nil {
+		for _, b := range sal.Blocks {
+			for _, in := range b.Instrs {
+				f, _, val := fieldStore(in)
+				if f == nil || f.Name() != "SalienceValue" {
+					continue
+				}
+				lf, lb := fieldLoad(stripConv(val))
+				okL = lf != nil && lf.Name() == "Integer" && len(sal.Params) > 1 && lb == ssa.Value(sal.Params[1])
+			}
+		}
+	}
+	c.Check(okL, "Salience.AcceptIntegerLiteral / stores the literal's own value", "-", "SalienceValue = int(lit.Integer)", "the stored salience is not the literal's value")
+}
